@@ -170,6 +170,13 @@ func runC08(l *core.Ledger) {
 		c11Watch(l, r)
 		c11Locks(l, r)
 	})
+	l.Rule("C08-B8", "the error a call reports for an ended context is that context's Err() (C02-T1 re-run: the context class of every reply loop, and every return in front of it, carries ctx.Err() itself or an error that wraps it) - an error derived from the deadline or built afresh does not match a context that was cancelled")
+	loops := findReplyLoops(l, r, "C08-B8")
+	l.With(map[string]string{"C02-T1": "C08-B8"}, func() {
+		for _, rl := range loops {
+			c02Loop(l, r, rl)
+		}
+	})
 }
 
 // c08Walk checks every blocking op reachable from the frame's function.
